@@ -60,7 +60,7 @@ def gen_case(rng, tier, idx):
 
 def add_halt_rule(rng, case):
     cfg = case["config"]
-    spots = [n for n in cfg["simulation"]["markets"] if cfg[n]["class"] == "Market"]
+    spots = [n for n in cfg["simulation"]["markets"] if cfg[n]["class"] != "IndexMarket"]
     cfg["HALT"] = {"class": "TradingHaltRule", "targetMarkets": [rng.choice(spots)],
                    "triggerChangeRate": rng.choice([0.002, 0.005, 0.01]), "haltingTimeLength": rng.choice([1, 2, 4])}
     ss = [s for s in cfg["simulation"]["sessions"] if s["withOrderExecution"] and s["withOrderPlacement"]]
